@@ -1,6 +1,7 @@
 from typing import Type
 
 import sqlalchemy as sa
+from sqlalchemy.exc import ArgumentError
 from sqlalchemy.sql.expression import BinaryExpression, ClauseElement, ColumnClause
 
 from odata_query import ast, exceptions as ex, visitor
@@ -38,7 +39,11 @@ class AstToSqlAlchemyCoreVisitor(common._CommonVisitors, visitor.NodeVisitor):
         left = self.visit(node.left)
         right = self.visit(node.right)
         op = self.visit(node.comparator)
-        return op(left, right)
+        try:
+            return op(left, right)
+        except ArgumentError:
+            # E.g. `x lt null`: SQLAlchemy only accepts `=`, `!=` with NULL / booleans.
+            raise ex.TypeException(node.comparator.__class__.__name__, str(right))
 
     def visit_CollectionLambda(self, node: ast.CollectionLambda) -> ClauseElement:
         """:meta private:"""
